@@ -10,6 +10,7 @@ CONSTANTS
   PublishAfterUnlock = FALSE
   CreatedRevalidated = TRUE
   DeleteHoldsLock = TRUE
+  DeleteRechecks = TRUE
   Equiv = "none"
   SubSer = FALSE
   MayCancel = FALSE
